@@ -141,7 +141,24 @@ fn generate(seed: u64, tier: Tier, em: &mut Emitter) {
     }
     let mut rng = seed_mix(seed, 0xC01_0002);
     let count = if tier == Tier::Quick { 600 } else { 9000 };
+    // big inputs (around 65 536 rows; partitions over 4096 rows; groups over 128 values)
+    let mut big: Vec<BigCase> = vec![];
+    for (i, (n, p)) in big_grid(full).into_iter().enumerate() {
+        if full || i < 2 {
+            big.push(("bigpair", range_src(Shape::U, n), big_chain(), Mode::Par(p)));
+        }
+        if full && i % 4 == 0 || i == 0 {
+            big.push(("bigpair", range_src(Shape::KV, n), vec![Step::GroupByKey], Mode::Par(if full { p } else { 7 })));
+        }
+    }
+    for (i, (src, steps, mode)) in big_combine_cases(full).into_iter().chain(big_group_cases(full)).enumerate() {
+        if matches!(mode, Mode::Par(_)) && (full || i % 3 == 0) {
+            big.push(("pair", src, steps, mode));
+        }
+    }
+    let mut spread = Spread::new(big, count);
     for _ in 0..count {
+        spread.step(em);
         let n = gen_len(&mut rng);
         let src = gen_src(&mut rng, n, true, true);
         let parts = gen_parts(&mut rng, src.len());
@@ -159,11 +176,13 @@ fn generate(seed: u64, tier: Tier, em: &mut Emitter) {
         let (steps, _) = gen_program(&mut rng, &src, &o, nsteps, parts);
         emit_pair(em, &src, &steps, parts, &["random"]);
     }
+    spread.finish(em);
 }
 
 fn run(kind: &str, input: &Value) -> Value {
     match kind {
         "pair" => run_pair_case(input, DIR),
+        "bigpair" => run_bigpair_case(input, DIR),
         "branchpair" => run_branchpair_case(input, DIR),
         _ => serde_json::json!(["invalid"]),
     }
